@@ -23,8 +23,16 @@ Definition run_app_setup_in_try : bool := true.
 (* web_protocol.RequestHandler.shutdown: number of `async with ceil_timeout(timeout)` waits before the task is cancelled *)
 Definition shutdown_phases : N := 2.
 
-(* web_protocol.RequestHandler.data_received returns at once when close() or force_close() was called *)
-Definition drops_data_when_closing : bool := true.
+(* web_protocol.RequestHandler.data_received returns at once when close() or force_close() was called (true), or still
+   feeds the rest of the body of the request in flight while the transport is open (false) *)
+Definition drops_data_when_closing : bool := false.
+
+(* web_protocol.RequestHandler.close() closes the transport when the connection is idle (waiter pending) *)
+Definition close_closes_idle : bool := true.
+
+(* web_protocol.RequestHandler.shutdown(timeout): a non-positive timeout skips both waits (true) or, through
+   ceil_timeout, means no deadline at all (false) *)
+Definition nonpositive_timeout_no_wait : bool := true.
 
 (* helpers.ceil_timeout: deadlines of delays strictly greater than this many ms are rounded up to a whole second;
    a delay <= 0 (or None) means no deadline *)
